@@ -973,7 +973,8 @@ class AuthTktCookieHelper:
 
     userid_type_decoders = {
         'int': int,
-        'unicode': lambda x: utf_8_decode(x)[0],  # bw compat for old cookies
+        # bw compat for old cookies: parse_ticket hands over a str
+        'unicode': lambda x: x if isinstance(x, str) else utf_8_decode(x)[0],
         'b64unicode': lambda x: utf_8_decode(b64decode(x))[0],
         'b64str': lambda x: b64decode(x),
     }
